@@ -228,3 +228,16 @@ func SupportedClone(env *ty.Env, t *ty.Ty) bool {
 	}
 	return copyPartsOK(env, t)
 }
+
+// HasMethods: a declaration with user methods is reachable from t. The clauses that relate two derived
+// functions to each other (Compare == 0 iff Equal, Equal implies same Hash) presuppose that the user's
+// own methods are consistent with each other, so they are checked on method-free types only.
+func HasMethods(env *ty.Env, t *ty.Ty) bool {
+	has := false
+	Walk(env, t, CtxTop, map[int]bool{}, func(x *ty.Ty, ctx int) {
+		if x.K == ty.Named && env.Decls[x.N].Methods != "" {
+			has = true
+		}
+	})
+	return has
+}
